@@ -1,6 +1,77 @@
-"""C13 via the shared algorithm harness (hv.algo_check)."""
-from .. import algo_check
+"""C13: prompting is demand-exact; written-back answers make the run repeatable.
+
+Part 1 (deciding): the shared algorithm harness (hv.algo_check) on generated
+form programs with a keyed store stub: prompts quote only lines that raised
+MissingInput for that input, each input is asked at most once, a re-run on the
+written-back store asks nothing and gives the identical result.
+Part 2 (supplementary, INI text layer, not solver-decided): the real
+habutax.solve(args) with write-back over real temp files and the real
+configparser, on a solver-generated solved return from which two text inputs
+are removed; the typed answers range over every printable ASCII character in
+three positions (SMT-enumerated); the re-run must ask nothing and produce the
+identical solution file.
+"""
+import os
+
+from .. import algo_check, common, retmodel, symx
+from .. import terms as tm
+
+
+def ini_sessions():
+    ex = symx.Explorer(max_paths=2000)
+    out = []
+
+    def body():
+        c = symx.cur().concretize(symx.fresh_int('ch', 32, 126).term)
+        p = symx.cur().concretize(symx.fresh_int('pat', 0, 2).term)
+        return (c, p)
+    for p in ex.explore(body):
+        if p.exc is None and not p.cut:
+            out.append(p.outcome)
+    return out, ex.stats
+
+
+def run_one(arg):
+    year, inputs, ch, pat = arg
+    c = chr(ch)
+    text = ['a%sb' % c, 'a %sb' % c, '%sab' % c][pat]
+    d = {'kind': 'cli_session', 'year': year, 'forms': ['1040'], 'inputs': inputs, 'remove': ['1040.occupation', '1040.city'],
+         'answers': {'1040.occupation': text, '1040.city': 'Town'}, 'interrupt': {'k': None}}
+    try:
+        out = common.run_real(['cli_session'], d)
+    except Exception as e:
+        return {'text': text, 'findings': ['harness:%s' % str(e)[-200:]], 'exc1': None, 'replay': d}
+    return {'text': text, 'findings': out['findings'], 'exc1': out['exc1'], 'replay': d}
+
+
+def extra(c, tier):
+    sess, st = ini_sessions()
+    c.paths += st['paths']
+    year = 2023
+    retmodel.preload([(year, 1, {'S': 2, 'ft': 'ref', 'cents': True})])
+    os.environ['HV_PRELOADED'] = '1'
+    lf = retmodel.Lifter(year, 1, 2, ['1040'], ft='ref')
+    r, inputs, m = lf.query([lf.rm.solved, tm.eq(tm.var('i:1040.number_w-2', 'I'), tm.I(1))])
+    if r != 'sat':
+        c.inconclusive.append('INI part: no solved base return')
+        return
+    results = common.pmap(run_one, [(year, inputs, ch, pat) for ch, pat in sess])
+    bad = {}
+    for rr in results:
+        nm = 'ini-session answer=%r' % rr['text']
+        ok = not rr['findings'] and rr['exc1'] is None
+        c.obligation(nm, 'unsat' if ok else 'sat', 0.0, sample={'supplementary_ini_session': rr['text'], 'findings': rr['findings'], 'exception': rr['exc1']} if (not ok or len(c.samples) < 8) else None)
+        if not ok:
+            kind = (rr['findings'][0].split(':')[0] if rr['findings'] else 'exception:%s' % rr['exc1'])
+            bad.setdefault(kind, []).append(rr)
+    for kind, lst in bad.items():
+        rr = lst[0]
+        rep = dict(rr['replay'])
+        rep['expect'] = kind if not kind.startswith('exception') else None
+        chars = sorted(set(x['text'] for x in lst))
+        c.violation('C13:ini:%s' % kind, 'an answer typed at the prompt does not survive write-back / re-read: %s for answers %s%s' % (kind, chars[:6], ' ...' if len(chars) > 6 else ''), rep)
+    c.extra['ini_sessions'] = len(results)
 
 
 def run(tier):
-    return algo_check.run_property('C13', tier)
+    return algo_check.run_property('C13', tier, extra=extra)
